@@ -106,14 +106,27 @@ theorem sameEv_process (s : St) (mt : Int) (t : Nat) : SameEv s.reqs (stepProces
     · exact SameEv.refl _
 
 open Scales.TagPool in
-/-- the deadline event of a request stays fired (until the connection is replaced) -/
-theorem C12_mux_fired_stays (max : Nat) (s : St) (op : Op) (rid : Nat) (r : Req)
+theorem sameEv_processKafka (s : St) (t : Nat) : SameEv s.reqs (stepProcessKafka s t).1.reqs := by
+  unfold stepProcessKafka
+  cases hl : tmLookup t s.tagmap with
+  | none => simp only [releaseTag, hl]; exact SameEv.refl _
+  | some rid =>
+    simp only [releaseTag, hl, setKey]
+    split
+    · rename_i r0 hr0
+      exact SameEv.set _ _ r0 _ hr0 (fun h => h)
+    · exact SameEv.refl _
+
+open Scales.TagPool in
+/-- the deadline event of a request stays fired (until the connection is replaced), on either
+    transport -/
+theorem C12_mux_fired_stays (fl : Flavour) (max : Nat) (s : St) (op : Op) (rid : Nat) (r : Req)
     (hop : op ≠ .reopen) (hr : s.reqs[rid]? = some r) (hfired : r.ev = .fired) :
-    ∃ r', (stepOp max s op).1.reqs[rid]? = some r' ∧ r'.ev = .fired := by
-  have key : SameEv s.reqs (stepOp max s op).1.reqs := by
+    ∃ r', (stepOp fl max s op).1.reqs[rid]? = some r' ∧ r'.ev = .fired := by
+  have key : SameEv s.reqs (stepOp fl max s op).1.reqs := by
     cases op with
     | reopen => exact absurd rfl hop
-    | ping => exact SameEv.refl _
+    | ping => cases fl <;> exact SameEv.refl _
     | req e popped =>
       simp only [stepOp, stepReq]
       split
@@ -129,15 +142,28 @@ theorem C12_mux_fired_stays (max : Nat) (s : St) (op : Op) (rid : Nat) (r : Req)
         · exact SameEv.refl _
       · exact SameEv.refl _
     | notify rid' =>
-      simp only [stepOp, stepNotify]
-      split
-      · rename_i r0 hr0
+      cases fl with
+      | thriftmux =>
+        simp only [stepOp, stepNotify]
         split
-        · split <;> exact SameEv.set _ _ r0 _ hr0 (fun h => h)
+        · rename_i r0 hr0
+          split
+          · split <;> exact SameEv.set _ _ r0 _ hr0 (fun h => h)
+          · exact SameEv.refl _
         · exact SameEv.refl _
-      · exact SameEv.refl _
+      | kafka =>
+        simp only [stepOp, stepNotifyKafka]
+        split
+        · rename_i r0 hr0
+          split
+          · exact SameEv.set _ _ r0 _ hr0 (fun h => h)
+          · exact SameEv.refl _
+        · exact SameEv.refl _
     | send => exact sameEv_send s
-    | process mt t => exact sameEv_process s mt t
+    | process mt t =>
+      cases fl with
+      | thriftmux => exact sameEv_process s mt t
+      | kafka => exact sameEv_processKafka s t
   exact key rid r hr hfired
 
 open Scales.TagPool in
@@ -167,7 +193,7 @@ open Scales.TagPool in
 theorem C12_mux_model_satisfies_spec (cfg : Cfg) (ops : List Op) (hc : cfgWF cfg = true)
     (ho : opsOk cfg St.init ops = true) : comp.spec cfg (comp.modelTrace cfg ops) = .ok := by
   simp only [cfgWF, decide_eq_true_eq] at hc
-  exact spec12_trace cfg hc ops {} St.init 0 (Inv_init cfg hc) Inv12_init ho
+  exact spec12_trace cfg hc ops {} St.init 0 (Inv_init cfg hc) (Inv12_init cfg) ho
 
 open Scales.TagPool in
 /-- **No transmission after the time-out.**  Once the deadline event of request `rid` has fired,
@@ -183,7 +209,7 @@ theorem C12_mux_no_write_after_fire (cfg : Cfg) (ops : List Op) (hc : cfgWF cfg 
     simp
   rw [htr, e] at hs
   have h12 := (specGo12_split cfg _ {} 0 op o h3 hs).2
-  have hnw := ((specObs12_ok_iff _ _ op o).mp h12).1
+  have hnw := ((specObs12_ok_iff cfg _ _ op o).mp h12).1
   have hfired : rid ∈ (accAfter {} (h1 ++ (Op.fire rid, o1) :: h2)).fired := by
     have e2 : h1 ++ (Op.fire rid, o1) :: h2 = h1 ++ ([(Op.fire rid, o1)] ++ h2) := by simp
     rw [e2, accAfter_append, accAfter_append]
@@ -211,7 +237,7 @@ theorem C12_mux_no_write_if_expired_at_issue (cfg : Cfg) (ops : List Op) (hc : c
       = (h1 ++ (Op.req .pre popped, o1) :: h2) ++ (op, o) :: h3 := by simp
   rw [htr, e] at hs
   have h12 := (specGo12_split cfg _ {} 0 op o h3 hs).2
-  have hnw := ((specObs12_ok_iff _ _ op o).mp h12).1
+  have hnw := ((specObs12_ok_iff cfg _ _ op o).mp h12).1
   have hfired : (accAfter {} h1).nreq ∈ (accAfter {} (h1 ++ (Op.req .pre popped, o1) :: h2)).fired := by
     have e2 : h1 ++ (Op.req .pre popped, o1) :: h2 = h1 ++ ([(Op.req .pre popped, o1)] ++ h2) := by simp
     rw [e2, accAfter_append, accAfter_append]
@@ -227,14 +253,15 @@ theorem C12_mux_no_write_if_expired_at_issue (cfg : Cfg) (ops : List Op) (hc : c
   exact this hfired
 
 open Scales.TagPool in
-/-- **A sent request that times out is discarded.**  Request `rid`'s frame was written with tag
+/-- **A sent request that times out is discarded** (ThriftMux; Kafka has no discard message,
+    there the tag simply stays leased — `C11_release_only_answered_or_unsent`).  Request `rid`'s frame was written with tag
     `t` and not answered since (`(t, rid) ∈ unansweredPairs h1`); its time-out callback runs
     (`notify rid`, which requires the fired event); when afterwards, on the same connection, the
     send queue is found empty, a Tdiscarded naming `t` has been written in between. -/
 theorem C12_mux_discard_written (cfg : Cfg) (ops : List Op) (hc : cfgWF cfg = true)
     (ho : opsOk cfg St.init ops = true) (h1 h2 h3 : List (Op × Obs)) (rid t : Nat) (o1 : Obs) (op : Op) (o : Obs)
     (htr : comp.modelTrace cfg ops = h1 ++ (.notify rid, o1) :: (h2 ++ (op, o) :: h3))
-    (hw : (t, rid) ∈ unansweredPairs h1)
+    (hfl : cfg.fl = .thriftmux) (hw : (t, rid) ∈ unansweredPairs h1)
     (hno : ∀ p ∈ h2, p.1 ≠ .reopen) (hop : op ≠ .reopen) (hdrain : o.qlen = 0) :
     ∃ p ∈ (Op.notify rid, o1) :: (h2 ++ [(op, o)]), ∃ f ∈ p.2.wrote, f.kind = .discard ∧ f.arg = t := by
   have hs := C12_mux_model_satisfies_spec cfg ops hc ho
@@ -242,7 +269,7 @@ theorem C12_mux_discard_written (cfg : Cfg) (ops : List Op) (hc : cfgWF cfg = tr
       = (h1 ++ (Op.notify rid, o1) :: h2) ++ (op, o) :: h3 := by simp
   rw [htr, e] at hs
   have h12 := (specGo12_split cfg _ {} 0 op o h3 hs).2
-  have hdd := ((specObs12_ok_iff _ _ op o).mp h12).2.2 hdrain
+  have hdd := ((specObs12_ok_iff cfg _ _ op o).mp h12).2.2 hfl hdrain
   -- the accumulator just before the notify step, and what is due in that step
   have hdue : t ∈ dueNow (accAfter {} h1) (.notify rid) := by
     simp only [dueNow, List.mem_append]
@@ -288,7 +315,7 @@ theorem C12_mux_due_once (cfg : Cfg) (ops : List Op) (hc : cfgWF cfg = true)
   simp only [cfgWF, decide_eq_true_eq] at hc
   obtain ⟨o1', o2', hops, hh1, hok1, hh2, hok2⟩ := trace_prefix cfg ops h1 _ ho htr
   have hinv := Inv_trace cfg hc o1' {} St.init (Inv_init cfg hc) hok1
-  have hinv12 := Inv12_trace cfg hc o1' {} St.init (Inv_init cfg hc) Inv12_init hok1
+  have hinv12 := Inv12_trace cfg hc o1' {} St.init (Inv_init cfg hc) (Inv12_init cfg) hok1
   rw [← hh1] at hinv hinv12
   -- the first operation of the rest is the notify, and it is enabled
   cases o2' with
@@ -299,22 +326,38 @@ theorem C12_mux_due_once (cfg : Cfg) (ops : List Op) (hc : cfgWF cfg = true)
     subst hop'
     simp only [opsOk, Bool.and_eq_true] at hok2
     have hen := hok2.1
-    simp only [opEnabled, stepOp, stepNotify] at hen
     have hs : reachFrom cfg St.init o1' = reach cfg o1' := rfl
     rw [hs] at hinv hinv12
-    cases hr : (reach cfg o1').reqs[rid]? with
-    | none => simp [hr] at hen
-    | some r =>
-      simp only [hr] at hen
-      by_cases hev : r.ev = .fired ∧ r.sub = true
-      · have hsk := hinv12.subkey rid r hr hev.2
-        have hk : r.key = .tag t := (hsk t).mpr hw
-        have hall : ∀ t', (t', rid) ∈ (accAfter {} h1).unans → t' = t := by
-          intro t' ht'
-          have := (hsk t').mpr ht'
-          rw [hk] at this; injection this with e; exact e.symm
-        exact tagsOf_single hw hinv12.tnd hall
-      · simp [hev] at hen
+    -- the callback is enabled: the request exists and is subscribed (either transport)
+    have hex : ∃ r, (reach cfg o1').reqs[rid]? = some r ∧ r.sub = true := by
+      simp only [opEnabled, stepOp] at hen
+      cases hfl : cfg.fl with
+      | thriftmux =>
+        simp only [hfl, stepNotify] at hen
+        cases hr : (reach cfg o1').reqs[rid]? with
+        | none => simp [hr] at hen
+        | some r =>
+          simp only [hr] at hen
+          by_cases hev : r.ev = .fired ∧ r.sub = true
+          · exact ⟨r, rfl, hev.2⟩
+          · simp [hev] at hen
+      | kafka =>
+        simp only [hfl, stepNotifyKafka] at hen
+        cases hr : (reach cfg o1').reqs[rid]? with
+        | none => simp [hr] at hen
+        | some r =>
+          simp only [hr] at hen
+          by_cases hev : r.ev = .fired ∧ r.sub = true
+          · exact ⟨r, rfl, hev.2⟩
+          · simp [hev] at hen
+    obtain ⟨r, hr, hsub⟩ := hex
+    have hsk := hinv12.subkey rid r hr hsub
+    have hk : r.key = .tag t := (hsk t).mpr hw
+    have hall : ∀ t', (t', rid) ∈ (accAfter {} h1).unans → t' = t := by
+      intro t' ht'
+      have := (hsk t').mpr ht'
+      rw [hk] at this; injection this with e; exact e.symm
+    exact tagsOf_single hw hinv12.tnd hall
 
 open Scales.TagPool in
 /-- **… and each is written once.**  Over any stretch of a model history without re-open, from
@@ -322,7 +365,7 @@ open Scales.TagPool in
     the end, are exactly the entries due at the start plus those that became due in between — no
     Tdiscarded is written that was not due, none is written twice, none is lost. -/
 theorem C12_mux_discard_exactly_once (cfg : Cfg) (ops : List Op) (hc : cfgWF cfg = true)
-    (ho : opsOk cfg St.init ops = true) (h1 h2 h3 : List (Op × Obs)) (t : Nat)
+    (ho : opsOk cfg St.init ops = true) (hfl : cfg.fl = .thriftmux) (h1 h2 h3 : List (Op × Obs)) (t : Nat)
     (htr : comp.modelTrace cfg ops = h1 ++ h2 ++ h3) (hno : ∀ p ∈ h2, p.1 ≠ .reopen) :
     discardsWritten t h2 + (owedAfter (h1 ++ h2)).count t
       = (owedAfter h1).count t + madeDue t (accAfter {} h1) h2 := by
@@ -331,7 +374,7 @@ theorem C12_mux_discard_exactly_once (cfg : Cfg) (ops : List Op) (hc : cfgWF cfg
   have hs12 : specGo12 cfg (accAfter {} h1) (0 + h1.length) h2 = .ok := by
     have h1' := specGo12_prefix cfg (h1 ++ h2) h3 {} 0 hs
     exact specGo12_suffix cfg h1 h2 {} 0 h1'
-  have hok := discStepsOk_of_spec12 cfg h2 _ _ hs12
+  have hok := discStepsOk_of_spec12 cfg hfl h2 _ _ hs12
   have := discard_accounting t h2 (accAfter {} h1) hno hok
   simp only [owedAfter, accAfter_append]
   exact this
